@@ -93,7 +93,9 @@ Build ==
      IN /\ G' = P
         /\ val' = [v \in P.V |-> InputTok(scn, v)]
         /\ toks' = [j \in DOMAIN scn.inputs |-> [type |-> scn.inputs[j].type, src |-> 0]]
-        /\ IF Redef /\ scn.filterOut = "reject" /\ scn.target.out # <<>>     \* redefineOutputs runs first
+        /\ IF scn.bad \in {"nilarg", "nonfunc", "nilconv"}      \* args.go:47-57: a nil option / a failing option is an error
+           THEN outcome' = Outc("bugerr") /\ frames' = <<>> /\ PS' = <<>>
+           ELSE IF Redef /\ scn.filterOut = "reject" /\ scn.target.out # <<>>     \* redefineOutputs runs first
            THEN outcome' = Outc("redeferr") /\ frames' = <<>> /\ PS' = <<>>
            ELSE IF missing # {}
            THEN /\ outcome' = [Outc("unsat") EXCEPT !.missing = missing]
@@ -286,9 +288,10 @@ ObsKind == CASE outcome.kind \in {"unsat", "unsat2"} -> "unsat"
              [] outcome.kind \in {"panic_final", "panic_dup"} -> "panic"
              [] outcome.kind = "overflow" -> "crash"
              [] OTHER -> outcome.kind
-ObsLog == IF scn.mode = "convert" THEN SelectSeq(log, LAMBDA e : e.fn # 0) ELSE log
+IsConvert == scn.mode \in {"convert", "convcall"}
+ObsLog == IF IsConvert THEN SelectSeq(log, LAMBDA e : e.fn # 0) ELSE log
 Observation == [sid |-> scn.sid, kind |-> ObsKind,
                 log |-> [i \in DOMAIN ObsLog |-> [fn |-> ObsLog[i].fn, args |-> ObsLog[i].args, outs |-> ObsLog[i].outs]],
                 inputs |-> SetToSeq({[name |-> x.name, type |-> x.type, sub |-> x.sub] : x \in outcome.inputs}),
-                valtok |-> IF scn.mode = "convert" /\ outcome.kind = "ok" THEN log[Len(log)].args[1] ELSE 0]
+                valtok |-> IF IsConvert /\ outcome.kind = "ok" THEN log[Len(log)].args[1] ELSE 0]
 =============================================================================
